@@ -121,6 +121,10 @@ class Handler(object):
             io.write_line("<info>o%s</info>" % name, flags=fl[lvl])
             io.error_line("<info>e%s</info>" % name, flags=fl[lvl])
         rec["answer"] = Question("Q?", DEFAULT).ask(io)
+        # a question with a validator that changes its input: under no-interaction the DEFAULT itself must come back
+        q2 = Question("P?", "8080")
+        q2.set_validator(int)
+        rec["answer2"] = q2.ask(io)
         rec["args"] = args.arguments(False)
         if self.raises:
             from props._c09_boom import boom
@@ -192,7 +196,7 @@ def execute(tokens, variant, string_args=False, tty=False):
 
     del RECORDS[:]
     app = build_app(variant if variant in VARIANTS[1:] else None)
-    raw = io.BytesIO((TYPED + "\n").encode())
+    raw = io.BytesIO((TYPED + "\n42\n").encode())
     i = StreamInputStream(raw)
     o, e = (tty_like_stream(), tty_like_stream()) if tty else (BufferedOutputStream(), BufferedOutputStream())
     args = StringArgs(" ".join(tokens)) if string_args else ArgvArgs([NAME] + list(tokens))
@@ -391,11 +395,15 @@ def judge(info, variant, obs, count, tty=False):
         count("nointeraction")
         if rec.get("answer") != DEFAULT:
             v("nointeraction:answer", "no-interaction switch: the question did not return its default", DEFAULT, rec.get("answer"))
+        if rec.get("answer2") != "8080":
+            v("nointeraction:answer:validated-question", "no-interaction switch: the question with a validator did not return its default itself",
+              "8080", repr(rec.get("answer2")))
         if obs["read"] != 0:
             v("nointeraction:read", "no-interaction switch: something was read from the input", 0, obs["read"])
     elif not quiet:
-        if rec.get("answer") != TYPED:
-            v("interaction:answer", "no no-interaction switch before '--': the typed answer must be returned", TYPED, rec.get("answer"))
+        if rec.get("answer") != TYPED or rec.get("answer2") != 42:
+            v("interaction:answer", "no no-interaction switch before '--': the typed answers must be returned", [TYPED, 42],
+              [rec.get("answer"), rec.get("answer2")])
     if quiet or bad:
         # what the streams show follows from the flags the handler saw: when those are already wrong the stream
         # comparisons below would only repeat the same failure under other names
@@ -404,7 +412,7 @@ def judge(info, variant, obs, count, tty=False):
     shown = [n for n, l in LEVELS if l <= lvl]
     prompt = not noint
     want_out = "".join("o%s\n" % n for n in shown)
-    want_err = "".join("e%s\n" % n for n in shown) + ("Q? " if prompt else "")
+    want_err = "".join("e%s\n" % n for n in shown) + ("Q? P? " if prompt else "")
     sout, serr = strip_sgr(out), strip_sgr(err)
     # the raising handler's error report follows the markers (on whichever stream): prefix comparison there
     if (sout != want_out) if variant == "ok" else (not sout.startswith(want_out)):
@@ -425,7 +433,7 @@ def judge(info, variant, obs, count, tty=False):
         why = "--ansi" if ansi else "terminal-like streams and no ANSI switch before '--'"
         count(("ansi_wrapped" if ansi else "ttydefault_wrapped") + sfx)
         rx_out = "".join(S1 + "o%s" % n + S1 + "\n" for n in shown)
-        rx_err = "".join(S1 + "e%s" % n + S1 + "\n" for n in shown) + ((S1 + r"Q\?" + S1 + " ") if prompt else "")
+        rx_err = "".join(S1 + "e%s" % n + S1 + "\n" for n in shown) + ((S1 + r"Q\?" + S1 + " " + S1 + r"P\?" + S1 + " ") if prompt else "")
         if not re.match(rx_out, out) or (variant == "ok" and not re.fullmatch(rx_out, out)):
             v("%s:stdout" % pred, "%s: markers on standard output are not SGR-wrapped" % why, "ESC[..m<marker>ESC[..m", out[:200])
         if not re.match(rx_err, err) or (variant == "ok" and not re.fullmatch(rx_err, err)):
